@@ -66,6 +66,15 @@ def handle (kind : String) (args : List String) (impl : String) : String :=
       let spS := if sp == "" then "" else s!"SPEC {sp} impl={impl}"
       if d == "" && spS == "" then "ok" else d ++ (if d != "" && spS != "" then " ; " else "") ++ spS
     | _, _, _ => "bad-op"
+  | "c14.flags", [st, fa, fb] =>
+    -- reads go to the replicas of the owning master the cluster does not report as failed / without address / in handshake
+    -- (its own suspicion "fail?" does not count), to the master when the strategy asks for it or no such replica is left
+    let usable (f : String) : Bool := !((f.splitOn ",").any fun x => x == "fail" || x == "noaddr" || x == "handshake")
+    let reps := (if usable fa then ["Ra"] else []) ++ (if usable fb then ["Rb"] else [])
+    let want : List String :=
+      if st == "M" then ["M"] else if st == "R" then (if reps.isEmpty then ["M"] else reps) else "M" :: reps
+    let m := "reads=" ++ ",".intercalate want
+    if impl == m then "ok" else s!"DIFF model={m} impl={impl} ; SPEC read-sent-to-a-node-that-is-no-candidate-for-it impl={impl}"
   | "c14.scan", _st :: nmS :: _nr :: rest =>
     -- `Model.ScanWalk.scanAddrs`: SCAN walks over the masters the routing table lists, in address order, under every strategy
     match nmS.toNat? with
